@@ -500,6 +500,11 @@ func (t *Table) Put(input *types.PutItemInput) (map[string]*types.Item, error) {
 		}
 	}
 
+	// check the index keys before the first write, a rejected request must not leave the item behind
+	if err := t.validateIndexKeys(item); err != nil {
+		return nil, err
+	}
+
 	t.setItem(key, item)
 
 	for _, index := range t.Indexes {
@@ -510,6 +515,16 @@ func (t *Table) Put(input *types.PutItemInput) (map[string]*types.Item, error) {
 	}
 
 	return item, nil
+}
+
+func (t *Table) validateIndexKeys(item map[string]*types.Item) error {
+	for _, index := range t.Indexes {
+		if _, err := index.keySchema.GetKey(t.AttributesDef, item); err != nil {
+			return types.NewError("ValidationException", err.Error(), nil)
+		}
+	}
+
+	return nil
 }
 
 func (t *Table) interpreterUpdate(input interpreter.UpdateInput) error {
